@@ -20,7 +20,7 @@ def check_c09(out: Outcome):
     accepted_valid, accepted_invalid = [], []
     n_valid = n_invalid = 0
     for p in decls:
-        s = p.structs[0]
+        s = p.structs[-1]
         expect = s.valid()
         n_valid += expect
         n_invalid += (not expect)
@@ -51,9 +51,9 @@ def check_c09(out: Outcome):
     run_x(out, sample, "C09", tag="C09x", history=False)
     # an accepted rule-invalid declaration whose contracts are still well-formed (only the bounds rule is broken):
     # let X name the obligation that fails and give a concrete misbehaving input
-    coherent = [p for p in accepted_invalid if all(n >= 1 for f in p.structs[0].fields for _, n in f.ranges)
-                and all((f.ty.kind == "bool" and f.nbits == 1) or f.ty.width == f.nbits for f in p.structs[0].fields)
-                and all(max(lo + n for lo, n in f.ranges) + (f.count - 1) * f.stride <= p.structs[0].storage for f in p.structs[0].fields)]
+    coherent = [p for p in accepted_invalid if all(n >= 1 for f in p.structs[-1].fields for _, n in f.ranges)
+                and all((f.ty.kind == "bool" and f.nbits == 1) or f.ty.width == f.nbits for f in p.structs[-1].fields)
+                and all(max(lo + n for lo, n in f.ranges) + (f.count - 1) * f.stride <= p.structs[-1].storage for f in p.structs[-1].fields)]
     xfail = {}
     if coherent:
         sub = Outcome("C09", out.tier, out.seed)
